@@ -38,30 +38,31 @@ def check(R, F):
     if not ok:
         return
     ob, ot = opens[0]
-    # ---- (a) depth
-    g = paths.dom_guards(fs, ob)
-    ok = 'Ge(var:usize,arg1.max_depth) in [0]' in g
-    R.require(ok, 'depth', FS + '|open-after-depth-test', fs.where(ob), 'File::open is dominated by !(depth >= max_depth)', 'the include is opened without the depth test having failed first: %s' % [x for x in g if 'max_depth' in x])
-    # depth = files.len() - 1 (0 if empty), computed before anything is popped/pushed
-    sw = [b for b, bl in enumerate(fs.blocks) if bl['term']['k'] == 'switch' and paths.show_operand(fs, bl['term']['op']) == 'var:usize' or (bl['term']['k'] == 'switch' and 'Ge(var:usize,arg1.max_depth)' == paths.show_operand(fs, bl['term']['op']))]
-    dl = None
-    for b, bl in enumerate(fs.blocks):
-        t = bl['term']
-        if t['k'] == 'switch' and paths.show_operand(fs, t['op']) == 'Ge(var:usize,arg1.max_depth)':
-            sd = fs.single_def(t['op']['pl']['l'])
-            if sd and sd[3]['rv']['k'] == 'bin' and is_place(sd[3]['rv']['a']):
-                dl = fs.canon(sd[3]['rv']['a']['pl'])['l']
-    vals = []
-    if dl is not None:
-        for (b, i, kind, node) in fs.defs().get(dl, []):
-            if kind == 'assign' and node['rv']['k'] in ('use',):
-                vals.append((paths.show_operand(fs, node['rv']['op']), b))
-    exprs = sorted(v for v, b in vals)
+    # ---- (a) depth, decided by the linear engine (with case expansion for `match len {0 => 0, n => n - 1}`,
+    # `saturating_sub(1)`, ...): with h = the height of the file stack (the includer on top), the include file is
+    # opened only if h - 1 < max_depth, i.e. h <= max_depth; the IncludesTooDeep error is built only if h - 1 >= max_depth.
+    # A pop or push between the height being taken and the test voids the facts (the engine drops facts about a length
+    # once a `&mut` to the vector has been handed out), so "taken before the stack is modified" is part of the proof.
+    from qv import cases
+    from qv.bounds import Analyzer, add, le, lin
+    from rules import e5
+    A = Analyzer(fs, F, e5.make_summary(F))
+    H, MAXD = lin('len:(*_1).files'), lin('P:(*_1).max_depth')
+    ok, why = cases.decide_at(A, ob, None, goals=[le(H, MAXD)])
+    R.require(ok, 'depth', FS + '|open-after-depth-test', fs.where(ob), 'File::open only with stack height - 1 < max_depth', 'the include file is opened although nesting depth (stack height - 1) < max_depth is not implied at that point (%s)' % why)
+    deep = [(b_, i_) for b_, bl in enumerate(fs.blocks) if not bl['cleanup'] for i_, st in enumerate(bl['stmts']) if st['k'] == 'assign' and st['rv']['k'] == 'agg' and st['rv']['def'].endswith('ErrorKind::IncludesTooDeep')]
+    ok3 = len(deep) == 1
+    why3 = 'expected one IncludesTooDeep construction, found %d' % len(deep)
+    if ok3:
+        # refuted where the error arm is entered (before it empties the stack): a non-empty stack whose depth is still
+        # below the limit
+        arm = [s_ for s_ in fs.doms(deep[0][0]) if len([p_ for p_ in fs.preds()[s_] if p_ in fs.idom()]) == 1
+               and fs.blocks[[p_ for p_ in fs.preds()[s_] if p_ in fs.idom()][0]]['term']['k'] == 'switch'
+               and 'max_depth' in (paths.show_operand(fs, fs.blocks[[p_ for p_ in fs.preds()[s_] if p_ in fs.idom()][0]]['term']['op']) or '')]
+        ok3, why3 = (False, 'the error is not below a test of max_depth: shape not recognised') if len(arm) != 1 else \
+            cases.decide_at(A, arm[0], 0, extra=[le(lin(c=1), H), le(H, MAXD)], contradiction=True)
+    R.require(ok3, 'depth', FS + '|too-deep-is-an-error', fs.where(deep[0][0]) if deep else fs.where(), 'IncludesTooDeep only when stack height - 1 >= max_depth', 'IncludesTooDeep can be reported for an include whose depth (stack height - 1) is below max_depth (%s)' % why3)
     pops = [b for b, t in fs.calls() if callee_name(t).endswith('Vec::<T, A>::pop')]
-    before = all(not any(fs.find_path(m, lambda x, b=b: x == b) for m in pops + [push[0][0]]) for v, b in vals)
-    R.require(exprs == ['0_usize', 'Sub(Vec::len(arg1.files),1_usize)'] and before, 'depth', FS + '|depth-is-stack-height-minus-one', fs.where(), 'depth = files.len() - 1 (0 if empty), taken at entry', 'depth is computed as %s%s' % (exprs, '' if before else ' after the stack was modified'))
-    deep = [b for b, bl in enumerate(fs.blocks) if not bl['cleanup'] for st in bl['stmts'] if st['k'] == 'assign' and st['rv']['k'] == 'agg' and st['rv']['def'].endswith('ErrorKind::IncludesTooDeep')]
-    R.require(len(deep) == 1 and 'Ge(var:usize,arg1.max_depth) not in [0]' in paths.dom_guards(fs, deep[0]), 'depth', FS + '|too-deep-is-an-error', fs.where(), 'depth >= max_depth -> IncludesTooDeep', 'no IncludesTooDeep error under depth >= max_depth')
     # ---- (b) path
     cb, ct = cps[0]
     a0 = paths.show_operand(fs, ct['args'][0])
@@ -117,6 +118,6 @@ def check(R, F):
         ok = f == {'origin': 'Option<T>::clone(arg1.context.origin)', 'previous_owner': 'arg2.context.previous_owner', 'previous_ttl': 'arg2.context.previous_ttl', 'previous_class': 'arg2.context.previous_class', 'default_ttl': 'arg2.context.default_ttl'}
     R.require(ok, 'context', up.gpath + '|origin-restored', up.where(), 'origin stays the includer\'s, everything else comes from the included file', 'update_context_from_include builds %s' % (f if ctxs else None))
     R.floor('include', 4)
-    R.floor('depth', 3)
+    R.floor('depth', 2)
     R.floor('path', 3)
     R.floor('context', 3)
